@@ -15,7 +15,8 @@ EXPLANATION = ("In the call-graph closure of every network-facing decoder entry 
                "(loops are abstracted by one arbitrary iteration with all loop-assigned variables unknown), by a relational guard, or by a "
                "reviewed lemma keyed by (function, kind, operands) whose supporting structural facts are re-checked. Also: allocation "
                "sizes are dominated by the 4096 cap / by a successful bounded read; every decoder loop consumes input or leaves; "
-               "unchecked constructors of VarInt / SessionId / QStreamId are called only with proven-in-range arguments.")
+               "unchecked constructors of VarInt / SessionId / QStreamId are called only with proven-in-range arguments."
+               ' Also (C11-R6): the QPACK stream drains leave their loop on end of stream / read errors with the prescribed error (no spin without consuming input).')
 NOT_DECIDED = ["external crates (octets, httlib-huffman, url, std) are summarised, not analysed", "32-bit targets (u64 as usize truncation; observation O3)",
                "value-level correctness of what is decoded (see C14/C15)"]
 TRUSTED = ["rustc MIR with overflow checks (dev profile): every overflowing op carries an Assert", "octets::Octets::{get_varint,get_bytes,skip} contracts",
